@@ -524,6 +524,10 @@ func c18Units(tier string, seed int64) []Unit {
 			c.Violate(Violation{Sig: "C18 unseeded-runs-repeat-a-seed", Detail: fmt.Sprintf("8 unseeded Check calls (4 in this process, 2 in each of 2 other processes, clock frozen) used first-case seeds %v", seeds), Replay: map[string]any{"seeds": seeds}})
 		}
 	}})
+	// the long-running units first, so that they overlap with everything else
+	sort.SliceStable(units, func(i, j int) bool {
+		return strings.Contains(units[i].Name, "reach-float-interior") && !strings.Contains(units[j].Name, "reach-float-interior")
+	})
 	return units
 }
 
